@@ -45,6 +45,10 @@ def programs(t):
         'newthread-of-sibling': [ev('TRACE_DATA_NEWTHREAD', 0, (t % 3 + 1, pid + 5, 0, 0), t), ev('TRACE_STRING_NEWTHREAD', 0, tid=t, data=S(nm + b'c'))],
         # a call whose START fell before the capture: only its END is in the stream (the head of any real trace)
         'orphan-end': [ev('BSC_getpid', 2, (0, 7 * t, 0, 0), t), ev('BSC_getuid', 2, (0, t, 0, 0), t)],
+        # byte-for-byte the same records on every thread (only the thread id differs): two threads doing the same thing in the same tick
+        'same-read': [ev('BSC_read', 1, (3, 0x7000, 64, 0), t), ev('MACH_vm_page_release', 0, (1, 1, 1, 1), t), ev('BSC_read', 2, (0, 63, 0, 0), t)],
+        # the buffer-overflow marker the kernel writes on whichever thread happens to run, inside a call
+        'lost-events-marker': [ev('BSC_getppid', 1, tid=t), ev('TRACE_LOST_EVENTS', 0, (0, 0, 0, 0), t), ev('BSC_getppid', 2, (0, 1, 0, 0), t)],
         'exec+rename': [ev('TRACE_DATA_EXEC', 0, (pid + 2, 0, 0, 0), t), ev('BSC_getpid', 1, tid=t), ev('TRACE_STRING_EXEC', 0, tid=t, data=S(nm + b'y')),
                         ev('BSC_getpid', 2, (0, pid, 0, 0), t)],
     }
@@ -54,14 +58,23 @@ NAMES = list(programs(1))
 
 
 def run(seq, prefilled=False):
-    tp, pn = ({1: 91, 2: 92, 3: 93}, {91: 'q1', 92: 'q2', 93: 'q3'}) if prefilled else ({}, {})
+    """prefilled: False (empty tables, feed()), True (thread map populated at construction, feed()), 'gen' (empty tables, every
+    record stamped with the SAME tick, through feed_generator - the lazy entry point the facade uses)."""
+    tp, pn = ({1: 91, 2: 92, 3: 93}, {91: 'q1', 92: 'q2', 93: 'q3'}) if prefilled is True else ({}, {})
     p = TracesParser(E.codes(), tp, pn)
     per = {}
-    for i, e in enumerate(seq):
-        r = p.feed(e._replace(timestamp=i))
-        if r is not None:
-            per.setdefault(r.ktraces[0].tid, []).append(
-                (type(r).__name__, str(r), tuple((x.eventid, x.func_qualifier, x.data, x.tid) for x in r.ktraces)))
+
+    def note(r):
+        per.setdefault(r.ktraces[0].tid, []).append(
+            (type(r).__name__, str(r), tuple((x.eventid, x.func_qualifier, x.data, x.tid) for x in r.ktraces)))
+    if prefilled == 'gen':
+        for r in p.feed_generator(e._replace(timestamp=5) for e in seq):
+            note(r)
+    else:
+        for i, e in enumerate(seq):
+            r = p.feed(e._replace(timestamp=i))
+            if r is not None:
+                note(r)
     return per, dict(tp), dict(pn), dict(p.tids_names), dict(p.global_strings)
 
 
@@ -79,7 +92,7 @@ def solo(name, t, trunc, prefilled=False):
 def judge(combo, schedule, trunc, prefilled=False):
     """combo: tuple of program names for threads 1..n; schedule: tuple of thread indices."""
     progs = []
-    base_tp, base_pn = ({1: 91, 2: 92, 3: 93}, {91: 'q1', 92: 'q2', 93: 'q3'}) if prefilled else ({}, {})
+    base_tp, base_pn = ({1: 91, 2: 92, 3: 93}, {91: 'q1', 92: 'q2', 93: 'q3'}) if prefilled is True else ({}, {})
     exp_per, exp_tp, exp_pn, exp_tn, exp_gs = {}, dict(base_tp), dict(base_pn), {}, {}
     for i, name in enumerate(combo):
         prog, (per, tp, pn, tn, gs) = solo(name, i + 1, trunc, prefilled)
@@ -117,11 +130,11 @@ def judge(combo, schedule, trunc, prefilled=False):
 class C05(Check):
     pid = 'C05'
     level = 'model_checking'
-    rule = ('schedules: for every ordered pair (and, per tier, triple) of per-thread programs from a library of 13 (syscall with '
+    rule = ('schedules: for every ordered pair (and, per tier, triple) of per-thread programs from a library of 15 (syscall with '
             'lookup, NEWTHREAD data+string, EXEC data+string, nested syscalls, thread name + terminate, sampler window, global '
             'string + dlopen, 3-record lookup inside stat64, page fault with nested record, launch with nested map, EXEC pair with '
-            'an unrelated syscall in between, NEWTHREAD pair announcing a sibling participant\'s thread id, two ENDs whose STARTs fell before the capture), each parameterised by its own tid/pid/names, EVERY interleaving (merge preserving '
-            'each program\'s order) is fed to a fresh TracesParser - once built with empty tables and once with a thread map already populated at construction. Plus one schedule family with a gap of 600..40 000 foreign records inside an open call, through feed_generator. quick: all pairs (full programs) + all triples of programs '
+            'an unrelated syscall in between, NEWTHREAD pair announcing a sibling participant\'s thread id, two ENDs whose STARTs fell before the capture, a read whose records are byte-identical on every thread, a call interrupted by the lost-events marker of the kernel), each parameterised by its own tid/pid/names, EVERY interleaving (merge preserving '
+            'each program\'s order) is fed to a fresh TracesParser - once built with empty tables, once with a thread map already populated at construction, and once through feed_generator with every record carrying the same timestamp. Plus one schedule family with a gap of 600..40 000 foreign records inside an open call, through feed_generator. quick: all pairs (full programs) + all triples of programs '
             'truncated to 2 events; thorough: all pairs and all triples of full programs. Oracle: per-thread list of (trace type, '
             'text, window) equals the solo run of that thread\'s program; learned tables equal the union of the solo runs. '
             'states = distinct program combinations; transitions = feeds; non-trivial = schedule with at least one context switch '
@@ -185,7 +198,7 @@ class C05(Check):
                 continue
             lens = [len(programs(i + 1)[n][:trunc]) for i, n in enumerate(combo)]
             for sched in interleavings(lens):
-                bad = judge(combo, sched, trunc) or judge(combo, sched, trunc, prefilled=True)
+                bad = judge(combo, sched, trunc) or judge(combo, sched, trunc, prefilled=True) or judge(combo, sched, trunc, prefilled='gen')
                 switches = sum(1 for a, b in zip(sched, sched[1:]) if a != b)
                 acc.case(nontrivial=switches >= len(combo), transitions=len(sched), state=h64(combo), outcome=h64((combo, bad is None)))
                 if bad:
@@ -201,7 +214,8 @@ class C05(Check):
             self.run_long_gap(acc)
             return [(sig, v['cases'][0][1]) for sig, v in acc.violations.items()]
         bad = judge(tuple(case['programs']), tuple(case['schedule']), case['trunc']) or \
-            judge(tuple(case['programs']), tuple(case['schedule']), case['trunc'], prefilled=True)
+            judge(tuple(case['programs']), tuple(case['schedule']), case['trunc'], prefilled=True) or \
+            judge(tuple(case['programs']), tuple(case['schedule']), case['trunc'], prefilled='gen')
         if not bad:
             return []
         sig = bad[0] + ':' + '+'.join(sorted(set(case['programs']))) if bad[0].startswith('interleaving-raised') else bad[0]
